@@ -3,5 +3,7 @@
 set -e
 cd "$(dirname "$(readlink -f "$0")")/../.."
 go build -o .work/bin/instr ./tools/instr
-.work/bin/instr -out .work/c02 -maprange geojson 2>.work/c02.instr.log || { cat .work/c02.instr.log; exit 1; }
-go build -tags verif -overlay .work/c02/overlay.json -o "$1" ./checks/c02
+W=.work/c02${VERIF_TAG:-}
+R=${VERIF_REPO:-/repo}
+.work/bin/instr -repo "$R" -out $W -maprange geojson 2>$W.instr.log || { cat $W.instr.log; exit 1; }
+go build ${VERIF_MODFLAG:-} -tags verif -overlay $W/overlay.json -o "$1" ./checks/c02
